@@ -11,6 +11,7 @@ that the decoders before the `fix:` commit do not have these properties.
 -/
 import ZoektModel.C11.Lemmas
 import ZoektModel.C11.DistLemmas
+import ZoektModel.C11.TOCLemmas
 namespace ZoektModel.C11
 open ZoektModel
 
@@ -181,6 +182,35 @@ theorem btreeLoad_total (f : File) (sec : SimpleSection) : Total (btreeLoad f se
   first
     | exact L.btreeLoad_total ..
     | (apply L.btreeLoad_total <;> assumption)
+
+/-! ### readHeader and readTOCSections -/
+
+/-- **`readHeader` is total**, including on files shorter than 8 bytes where `sz - 8` wraps around -/
+theorem readHeader_total (f : File) : Total (readHeader f) := L.readHeader_total f
+
+/-- on success the reader stands at a `uint32` position inside the mapping and the TOC section's fields are `uint32` -/
+theorem readHeader_ok (f : File) (toc : SimpleSection) (n pos : Nat) (h : readHeader f = .ok (toc, n, pos)) :
+    pos < two32 ∧ pos ≤ f.data.length ∧ toc.off < two32 ∧ toc.sz < two32 := L.readHeader_ok f toc n pos h
+
+/-- **one iteration of the tagged TOC loop** (`tag := Str(); kind := Varint();` then read / skip / unknown-kind error):
+    started at a `uint32` position inside the mapping it returns a value or an error, and a success has moved the
+    reader strictly forward, still inside the mapping -/
+theorem tocStep_progress (f : File) (tags : List Bytes) (st : TocState) (r : Rd) (hr : r.off < two32)
+    (hl : r.off ≤ f.data.length) :
+    Total (tocStep f tags st r).1 ∧
+      ∀ st', (tocStep f tags st r).1 = .ok st' → r.off < (tocStep f tags st r).2.off ∧ (tocStep f tags st r).2.off ≤ f.data.length := by
+  obtain ⟨t, _, s⟩ := L.strict_tocStep f tags st r hr hl
+  exact ⟨t, s⟩
+
+/-- **the tagged loop terminates**: `len(mapping) + 1 - r.off` iterations always suffice, for every stop offset -/
+theorem tocLoop_total (f : File) (tags : List Bytes) (stop fuel : Nat) (st : TocState) (r : Rd) (hr : r.off < two32)
+    (hl : r.off ≤ f.data.length) (hf : f.data.length + 1 - r.off < fuel) : Total (tocLoop f tags stop fuel st r) :=
+  L.tocLoop_total f tags stop fuel st r hr hl hf
+
+/-- **`readTOCSections` is total** for every file and every tag filter: unknown tags, kind mismatches, unknown kinds,
+    filtered (skipped) sections, the legacy section-count branch -/
+theorem readTOCSections_total (f : File) (tags : List Bytes) : Total (readTOCSections f tags) :=
+  L.readTOCSections_total f tags
 
 /-! ### distanceHitIterator (after the fix) -/
 
